@@ -76,6 +76,7 @@ var checks = map[string][]HarnessSpec{
 		{Name: "verifC14Names", Pkg: ".", Labels: []string{"names"}},
 		{Name: "verifC14Literals", Pkg: ".", Labels: []string{"literals"}},
 		{Name: "verifC14Zone", Pkg: ".", Labels: []string{"resolved", "error"}},
+		{Name: "verifC14Chain", Pkg: ".", Labels: []string{"chain"}},
 	},
 	"C15": {
 		{Name: "verifC15Targets", Pkg: ".", Labels: []string{"checked"}},
@@ -89,6 +90,7 @@ var checks = map[string][]HarnessSpec{
 	},
 	"C17": {
 		{Name: "verifC17Dial", Pkg: ".", Labels: []string{"dialed", "connected", "failed"}},
+		{Name: "verifC17ResolverPath", Pkg: ".", Labels: []string{"resolver-path"}},
 	},
 	"C18": {
 		{Name: "verifC18Dial", Pkg: ".", Labels: []string{"returned", "connected", "all-failed", "quiesced"}},
